@@ -183,6 +183,8 @@ SCRIPTS = [
     ["append", "opentx-prebuilt", "age", "gc0", "gc1h", "append", "gc0"],
     # pre-built files registered under non-canonical spellings of their paths, collections afterwards
     ["append", "append-spelled", "append-spelled", "age", "gc1h", "append-spelled", "append-spelled", "age", "gc0", "append", "gc0"],
+    # two live transactions hold the same pre-built file; one of them rolls back; collections
+    ["append", "opentx-shared", "age", "gc1h", "rollback-first", "gc1h", "gc0"],
     # fresh garbage: the default-sized grace period leaves it alone, grace 0 removes it
     ["append", "append2", "delete", "expire+", "gc1h", "gc0", "append", "delete", "expire+", "gc0"],
 ]
@@ -264,6 +266,22 @@ def _history(ctx, rep, rng, location, make_store, chdir=None, s3env=None, script
                     tx.append_files([DataFile(file_path=spell, file_format=FileFormat.PARQUET, partition_values={}, record_count=1,
                                               file_size_in_bytes=os.path.getsize(full_))])
                     tx.commit()
+            elif op == "opentx-shared" and s3env is None and not open_txs:
+                # TWO live transactions queue the SAME pre-built file; later the first one rolls back
+                import pyarrow as pa
+                import pyarrow.parquet as pq
+                from datashard.data_structures import DataFile, FileFormat
+                sch_ = t.file_manager.data_file_manager.create_arrow_schema(tablekit.schema())
+                rel_ = f"data/shared-{i}.parquet"
+                pq.write_table(pa.table({"id": [8500 + i], "name": ["shared"]}, schema=sch_), os.path.join(store.root, rel_))
+                for _n in range(2):
+                    tx = t.new_transaction().begin()
+                    tx.append_files([DataFile(file_path="/" + rel_, file_format=FileFormat.PARQUET, partition_values={}, record_count=1,
+                                              file_size_in_bytes=os.path.getsize(os.path.join(store.root, rel_)))])
+                    tx._verif_prebuilt = [rel_]
+                    open_txs.append(tx)
+            elif op == "rollback-first" and open_txs:
+                open_txs.pop(0).rollback()
             elif op == "age":
                 if s3env is not None:
                     _age_all(None, 7200, s3env.fake, store.prefix + "/")
@@ -347,7 +365,7 @@ def _end_to_end(ctx, rep):
     rng = ctx.rng("e2e")
     base = scratch_dir("c05-")
     cwd = os.getcwd()
-    n = ctx.budget(5, 40)
+    n = max(ctx.budget(5, 40), len(SCRIPTS))       # every directed script runs in every tier
     spellings = ["abs", "abs/", "rel", "./rel", "rel/", "d", "data", "m", "metadata", "symlink", "s3", "s3nested", "s3:data", "s3:metadata", "s3:d",
                  "s3tz"]
     try:
@@ -420,17 +438,22 @@ def _check_markers(ctx, rep, model_ok):
         sch = t.file_manager.data_file_manager.create_arrow_schema(tablekit.schema())
         pool = ["data/a.parquet", "/data/a.parquet", "data/region=eu/part-0.parquet", "data/region=us/part-0.parquet", "/data/region=eu/part-0.parquet",
                 "data/x/y/z.parquet", "data/x/z.parquet", "data/z.parquet", "metadata/manifests/m.avro", "data//dd.parquet", "data/sub/a.parquet"]
-        dig = lambda p_: hashlib.sha256(p_.lstrip("/").encode()).hexdigest()[:16]
         tx0 = t.new_transaction().begin()
+        salt0 = getattr(tx0, "_marker_salt", None)
+        dig0 = lambda p_: hashlib.sha256(((salt0 + ":") if salt0 is not None else "").encode() + p_.lstrip("/").encode()).hexdigest()[:16]
         fn = getattr(tx0, "_marker_path_for", None)
         if fn is not None:
-            reqs = [f"marker.name {enc(p_)} {enc(dig(p_))}" for p_ in pool]
-            for p_, m_ in zip(pool, driver.ask(reqs)):
-                rep.corr_cases += 1
-                impl = fn(p_)
-                want = "metadata/inflight/" + dec(m_) + ".inflight"
-                if impl != want:
-                    rep.diverge("marker.name (Transaction._marker_path_for)", {"path": p_}, want, impl)
+            for pre in (False, True):
+                reqs = [f"marker.name {enc(p_)} {enc(dig0(p_))} {int(pre)}" for p_ in pool]
+                for p_, m_ in zip(pool, driver.ask(reqs)):
+                    rep.corr_cases += 1
+                    try:
+                        impl = fn(p_, pre) if pre else fn(p_)
+                    except TypeError:
+                        impl = "no-prebuilt-argument"
+                    want = "metadata/inflight/" + dec(m_) + ".inflight"
+                    if impl != want:
+                        rep.diverge("marker.name (Transaction._marker_path_for)", {"path": p_, "prebuilt": pre}, want, impl)
         tx0.rollback()
         rng = ctx.rng("markers")
         for p_ in pool:
@@ -442,6 +465,8 @@ def _check_markers(ctx, rep, model_ok):
         for _ in range(ctx.budget(12, 120)):
             batch = [rng.choice(files) for _ in range(rng.randint(1, 5))]
             tx = t.new_transaction().begin()
+            salt = getattr(tx, "_marker_salt", None)
+            dig = lambda p_, salt=salt: hashlib.sha256(((salt + ":") if salt is not None else "").encode() + p_.lstrip("/").encode()).hexdigest()[:16]
             written = []
             st = t.storage
             ow = st.write_file
